@@ -139,6 +139,11 @@ return ok
         case = rule_case(sh, c, "d6", L, intdoc=not ctx.quick and sh.count("X") >= 3)
         case["id"] = case["id"].replace("c05.rule.", "c05.ruledeep.")
         out.append(case)
+    # aliased documents: one container object under several branches - each branch is a node with its own failure entry
+    for sh, c in [(("M", "b"), "gt"), (("X", "X"), "len"), (("l", "L", "b"), "eq"), (("M", "c", "i"), "gt")] + ([] if ctx.quick else [(("X", "X", "X"), "gt"), (("c", "L", "Lv"), "len")]):
+        case = rule_case(sh, c, "da", L)
+        case["id"] = case["id"].replace("c05.rule.", "c05.rulealias.")
+        out.append(case)
     if ctx.quick:
         for sh, c, d in QUICK:
             out.append(rule_case(sh, c, d, L))
